@@ -166,3 +166,29 @@ Example ex_cs_denotes :
   (let '(ip, ind, dat, (m', n)) := remove_rows (indptr ex_cs) (indices ex_cs) (data ex_cs) (3, 3) [true;false;true] in
    dense_of (mkCS m' n ip ind dat)) = [[5;0;7];[9;4;0]]%Z.
 Proof. vm_compute. split; reflexivity. Qed.
+
+(* ---- "all prior histories": a filter applied to the result of an earlier filter is a filter of the
+   ORIGINAL table, so a history of filters cannot change what a later filter means.  [mask_then m1 m2]
+   keeps, among the positions m1 keeps, those m2 keeps (m2 runs over the survivors).  Table.filter =
+   filter_table = selection + the constructor's metadata normalisation; both compose. *)
+From BiomV Require Import Proofs.FilterComposeProofs.
+
+Theorem filter_after_filter : forall m1 m2 a t,
+  filter_table m2 a (filter_table m1 a t) = filter_table (mask_then m1 m2) a t.
+Proof. exact filter_table_twice. Qed.
+Print Assumptions filter_after_filter.
+
+(* filters on different axes commute *)
+Theorem filters_on_different_axes_commute : forall mo ms t,
+  filter_table mo Obs (filter_table ms Samp t) = filter_table ms Samp (filter_table mo Obs t).
+Proof. exact filter_table_axes_commute. Qed.
+Print Assumptions filters_on_different_axes_commute.
+
+(* by id lists: filtering by A (or its complement) and then by B (or its complement) keeps exactly
+   the ids of the ORIGINAL table that pass both tests, in their original order, with everything
+   filter_keeps_selected says about a single filter by that combined test *)
+Theorem filter_by_ids_twice : forall keepA keepB invA invB a t t1 t2,
+  filter_ids keepA invA a t = ROk t1 -> filter_ids keepB invB a t1 = ROk t2 ->
+  t2 = filter_table (map (fun x => xorb (zmem x keepA) invA && xorb (zmem x keepB) invB) (ids a t)) a t.
+Proof. exact filter_ids_twice. Qed.
+Print Assumptions filter_by_ids_twice.
